@@ -1449,8 +1449,8 @@ def check_c18(ix, cfg):
             continue
         if oc == "hang":
             fails = [e for e in ix.kinds["api-end"] if e["i"] == inv and not e.get("ok")]
-            if not fails:
-                out.append(V("C18", "no-outcome", f"invocation {inv} never produced an outcome: {info.get('hang')}", table=info.get("hang_table")))
+            out.append(V("C18", "no-outcome-after-api-failure" if fails else "no-outcome",
+                         f"invocation {inv} never produced an outcome: {info.get('hang')}", table=info.get("hang_table")))
             continue
         if oc in ("SUCCEEDED", "FAILED", "PENDING"):
             ret = info["ret"]
